@@ -260,9 +260,12 @@ _XMLNOTE = ("Trusted: Lean kernel and standard axioms; the hand-written model of
 CLAIMED["C08"] = dict(
     text="Model of XMLFormatter.format in Lean 4 (ghost nodes, _xpath, real insert positions, realign, join, mark/wrap, finalize on "
     "top of the placeholder model with explicit heap), tied to the code by U9. Theorems: split_string does not cut texts without "
-    "private-use characters, _xpath sees exactly the live view, the placeholder table is one-to-one (C11). PARTIAL: totality, "
-    "re-parsing, absence of private-use characters (text, tails and attribute values) and the namespace discipline are decided on "
-    "every run by the oracle on the real output over all formatter configurations; not a theorem about the whole formatter. "
+    "private-use characters, _xpath sees exactly the live view, the placeholder table is one-to-one (C11); for the whole formatter "
+    "without text tags and without use_replace the tree handed to render has no placeholder character, whatever script the handlers "
+    "accept (C08_output_placeholder_free: an invariant over all twelve handlers plus finalize on marked trees); with text tags for the "
+    "empty script (C11_prepare_then_finalize). PARTIAL: totality, re-parsing, absence of private-use characters with text tags / "
+    "use_replace (text, tails and attribute values) and the namespace discipline are decided on every run by the oracle on the real "
+    "output over all formatter configurations. "
     "Known findings X4, X5, X6 (use_replace with text / formatting tags); fixed defect c6abe9e.",
     note=_XMLNOTE,
     technique="Lean 4 model + component lemmas; model/code tree correspondence; well-formedness / placeholder / namespace oracle on real output",
